@@ -97,6 +97,9 @@ def run(ctx: core.Ctx):
         # (a) direct injection, one scalar degree at a time
         for i, d in enumerate(DEG):
             clear()
+            # the same loaded rule is triggered again and again: each time the block carries another implication object,
+            # which every contribution of *this* trigger must carry
+            rb.implication = (fl.Minimum, fl.AlgebraicProduct, fl.EinsteinProduct)[i % 3]()
             rule.activation_degree = fl.scalar(d)
             rule.trigger(rb.implication)
             ctx.count()
